@@ -42,7 +42,11 @@ entry("C09", True, "model_checking",
       "The sender never wedges: TLC shows NoTrip (every assertion site), NotFrozen (context lock), EndsIdle at quiescence for all "
       "bounded episodes of the model of the current code; every explored real execution ends idle/inactive with nothing in "
       "flight, no consistency check tripped, no loop exception, event-loop thread never blocked, and a probe send succeeds "
-      "(clauses C09a-d).", _QOS_NOTE, _QOS_TECH, "DESIGN.md §4 C07-C09")
+      "(clauses C09a-d). Stage gateway_life_cycle (also part of C07/C08): spec/GwyLife.tla models Engine.start()/stop(), the "
+      "protocol's connection callbacks and futures, ports that die or stay silent (TLC: 5 instances, safety + liveness); a real "
+      "Gateway is driven through stop / start-again / dying-port sequences - hand-written and taken from the model by "
+      "-simulate - with callers using async_send_cmd() and send_cmd(); every execution is folded by TLC through the model's "
+      "operators (GwyLifeTrace) and judged by the same contract.", _QOS_NOTE, _QOS_TECH, "DESIGN.md §4 C07-C09, §9.11")
 
 _TBL_NOTE = ("Trusted: the ~10-line table dumpers / run-length encoder in the harness; TLC evaluating the spec operators; "
              "strings are sampled systematically (bounds in the evidence file), integer grids are exhaustive. "
